@@ -203,8 +203,8 @@ def atoms_function_case(draw):
     "C32",
     "atoms_functions",
     atoms_function_case,
-    quick=600,
-    thorough=12000,
+    quick=3000,
+    thorough=60000,
     tol="exact (positions, cell, numbers, pbc bit-identical)",
     rule=">=1 atom outside the cell or a non-orthogonal / not exactly diagonal cell",
     nontrivial_floor=0.4,
@@ -316,7 +316,7 @@ def atoms_object_case(draw):
     "atoms_objects",
     atoms_object_case,
     quick=220,
-    thorough=4000,
+    thorough=10000,
     tol="exact (positions, cell, numbers, pbc bit-identical)",
     rule=">=1 atom outside the cell or a non-orthogonal / not exactly diagonal cell",
     nontrivial_floor=0.4,
@@ -629,8 +629,8 @@ def changed_measurement(s, m):
     "C32",
     "measurement_methods",
     measurement_case,
-    quick=500,
-    thorough=10000,
+    quick=2500,
+    thorough=60000,
     tol="exact (array bits, deep-copied metadata, axes metadata)",
     rule="at least one applied method returned a new array object",
     nontrivial_floor=0.5,
